@@ -26,9 +26,9 @@ func validScalar(r *rand.Rand, f flatField, fk string) any {
 		return r.Intn(2) == 0
 	case "str":
 		if isEP {
-			return []string{"127.0.0.2:9090", "localhost:80", ":8081"}[r.Intn(3)]
+			return []string{"127.0.0.2:9090", "localhost:80", ":8081", ":1", ":65535"}[r.Intn(5)]
 		}
-		if isEq {
+		if _, isPath := hasTag(tags, "url-path"); isEq || isPath {
 			return stringFor(f.key, tags)
 		}
 		if _, req := hasTag(tags, "required"); req {
@@ -47,8 +47,14 @@ func validScalar(r *rand.Rand, f flatField, fk string) any {
 		}
 		return n
 	case "float":
+		if _, ok := hasTag(tags, "min"); ok {
+			return []any{3.5, 2, 10.0}[r.Intn(3)]
+		}
 		return []any{3.5, 2, 0.25, 10.0}[r.Intn(4)]
 	case "dur":
+		if _, ok := hasTag(tags, "max-time"); ok {
+			return []string{"3s", "1s", "59s", "1m"}[r.Intn(4)]
+		}
 		return []string{"3s", "1m30s", "250ms", "2h"}[r.Intn(4)]
 	}
 	return nil
